@@ -226,6 +226,26 @@ def scenario(job):
         except Exception as e:  # noqa
             r_new2.append(Failure(e))
         ctx.check(len(r_new) == 1 and isinstance(r_new[0], Failure) and len(r_new2) == 1 and isinstance(r_new2[0], Failure), "new-operations-fail-after-close", "produce: %r metadata: %r" % (r_new, r_new2))
+        # every other kind of operation: group-coordinator lookups (twice: the second must not hang on the first's bookkeeping),
+        # offset fetch/commit through the coordinator, fetch, list-offsets
+        from afkak.common import OffsetCommitRequest, OffsetFetchRequest, OffsetRequest
+
+        others = [
+            ("load_coordinator_for_group", lambda: client.load_coordinator_for_group("g1")),
+            ("load_coordinator_for_group again", lambda: client.load_coordinator_for_group("g1")),
+            ("send_offset_fetch_request", lambda: client.send_offset_fetch_request("g2", [OffsetFetchRequest("t", 0)])),
+            ("send_offset_commit_request", lambda: client.send_offset_commit_request("g3", [OffsetCommitRequest("t", 0, 5, -1, b"")])),
+            ("send_fetch_request", lambda: client.send_fetch_request([FetchRequest("t", 0, 0, 100)], max_wait_time=100)),
+            ("send_offset_request", lambda: client.send_offset_request([OffsetRequest("t", 0, -1, 1)])),
+            ("load_metadata_for_topics()", lambda: client.load_metadata_for_topics()),
+        ]
+        for name, fn in others:
+            rr = []
+            try:
+                fn().addBoth(rr.append)
+            except Exception as e:  # noqa
+                rr.append(Failure(e))
+            ctx.check(len(rr) == 1 and isinstance(rr[0], Failure), "new-operations-fail-after-close", "%s after close(): %r" % (name, rr))
 
         def invariants(where):
             ctx.check(len(cl.net.attempts) == n_attempts, "no-connection-attempt-after-close", "%s: %d new connection attempts after close()" % (where, len(cl.net.attempts) - n_attempts))
